@@ -33,6 +33,12 @@ type tbl struct {
 	// setup, when set, runs in the run's own interpreter before the subject (registration through the subject's own
 	// methods): the choices it makes are enumerated with those of the run
 	setup func(ip *absint.Interp)
+	// atomicCells: the values of sync/atomic variables, by receiver identity (see stdModels)
+	atomicCells map[string]absint.Value
+	// under the scheduler: WaitGroup counters and mutex states by the place they live in (see syncOp)
+	wgs    map[string]*int64
+	mus    map[string]*muState
+	onSync func(ev, key string)
 	// addrs: the addresses handed out by (reflect.Value).Pointer so far (see there)
 	addrs  map[*absint.Tok]int64
 	naddrs int
@@ -75,6 +81,7 @@ func newTbl(c *core.Ctx) *tbl {
 		invoke:  map[*types.Func]func(*absint.Interp, []absint.Value) absint.Value{},
 		invokeN: map[string]func(*absint.Interp, []absint.Value) absint.Value{}}
 	stringModels(t) // the standard string functions on literal texts (a table may override any of them)
+	stdModels(t)    // number formatting, atomics, clocks, processor counts
 	// reflectx.Id renders a value's type for log and error texts only
 	if idFn := c.Func("util/reflectx", "Id"); idFn != nil {
 		t.callee[idFn] = func(ip *absint.Interp, a []absint.Value) absint.Value { return &absint.Opaque{Why: "text"} }
@@ -169,6 +176,24 @@ func (t *tbl) Call(ip *absint.Interp, site ssa.CallInstruction, args []absint.Va
 		}
 	}
 	if cal == nil {
+		if o, isOnce := ip.CurFn.(*absint.Tok); isOnce && o.Class == "once" {
+			return callOnce(ip, o), true
+		}
+		if h, isHook := ip.CurFn.(*absint.Tok); isHook && h.Class == "hook" {
+			// an observation hook the table did not set: it is called and changes nothing
+			res := com.Signature().Results()
+			var outs absint.Tuple
+			for i := 0; i < res.Len(); i++ {
+				outs = append(outs, ip.ZeroOf(res.At(i).Type()))
+			}
+			switch len(outs) {
+			case 0:
+				return nil, true
+			case 1:
+				return outs[0], true
+			}
+			return outs, true
+		}
 		if t.dynamic != nil && ip.CurFn != nil {
 			return t.dynamic(ip, ip.CurFn, args)
 		}
@@ -204,10 +229,63 @@ func (t *tbl) Call(ip *absint.Interp, site ssa.CallInstruction, args []absint.Va
 					return goTypeTok(k.Type()), true
 				}
 			}
+			// reflect.TypeOf(new(I)): the operand's static type is a pointer to an interface - that is its type
+			if p, ok := mi.X.Type().Underlying().(*types.Pointer); ok && types.IsInterface(p.Elem()) {
+				return goTypeTok(mi.X.Type()), true
+			}
 		}
 	}
 	if h, ok := t.ext[full]; ok {
 		return h(ip, args), true
+	}
+	if h, ok := stdGeneric[full]; ok {
+		return h(t, ip, site, args), true // (calls are resolved to the generic function, not to the instance)
+	}
+	if base := genericBase(full); base != full || strings.HasPrefix(full, "(*sync/atomic.Pointer") {
+		if h, ok := t.ext[base]; ok {
+			return h(ip, args), true
+		}
+		if h, ok := stdGeneric[base]; ok {
+			return h(t, ip, site, args), true
+		}
+		if strings.HasPrefix(base, "(*sync/atomic.Pointer).") {
+			if t.atomicCells == nil {
+				t.atomicCells = map[string]absint.Value{}
+			}
+			key := fmt.Sprintf("%p", args[0])
+			if fr, isFR := args[0].(*absint.FieldRef); isFR {
+				key = fmt.Sprintf("%p.%s", fr.Obj, fr.Name)
+			}
+			switch strings.TrimPrefix(base, "(*sync/atomic.Pointer).") {
+			case "Load":
+				if v, has := t.atomicCells[key]; has {
+					return v, true
+				}
+				return absint.Nil{}, true
+			case "Store":
+				t.atomicCells[key] = args[1]
+				return nil, true
+			case "Swap":
+				old, has := t.atomicCells[key]
+				if !has {
+					old = absint.Nil{}
+				}
+				t.atomicCells[key] = args[1]
+				return old, true
+			case "CompareAndSwap":
+				cur, has := t.atomicCells[key]
+				if !has {
+					cur = absint.Nil{}
+				}
+				if eq, known := absint.Equal(cur, args[1]); known && eq {
+					t.atomicCells[key] = args[2]
+					return absint.Bool(true), true
+				} else if !known {
+					panic(&absint.Undecided{Msg: "CompareAndSwap on a pointer the model cannot compare"})
+				}
+				return absint.Bool(false), true
+			}
+		}
 	}
 	switch {
 	case strings.HasPrefix(full, "github.com/pkg/errors.") || full == "errors.New" || full == "fmt.Errorf":
@@ -217,6 +295,8 @@ func (t *tbl) Call(ip *absint.Interp, site ssa.CallInstruction, args []absint.Va
 			}
 		}
 		return t.newErr(cal.Name()), true
+	case ip.Sched && (strings.HasPrefix(full, "(*sync.WaitGroup).") || strings.HasPrefix(full, "(*sync.Mutex).") || strings.HasPrefix(full, "(*sync.RWMutex).")):
+		return t.syncOp(ip, full, args), true
 	case strings.HasPrefix(full, "(*sync.WaitGroup).") || strings.HasPrefix(full, "(*sync.Mutex).") || strings.HasPrefix(full, "(*sync.RWMutex)."):
 		return nil, true // synchronisation has no effect on a sequential schedule
 	case full == "(reflect.Value).IsZero" && len(args) == 1:
@@ -504,6 +584,29 @@ func (t *tbl) Field(ip *absint.Interp, obj *absint.Tok, name string, typ types.T
 	if t.field != nil {
 		if v := t.field(ip, obj, name, typ); v != nil {
 			return v
+		}
+	}
+	// a function-typed field the table says nothing about: nil when nothing in scope ever stores a function there,
+	// otherwise a hook that observes (calling it changes nothing)
+	if _, isSig := typ.Underlying().(*types.Signature); isSig && ip.FieldOwner != nil {
+		if n := core.NamedOf(ip.FieldOwner); n != nil && n.Obj().Pkg() != nil && core.InScopePath(n.Obj().Pkg().Path()) {
+			stores, _ := t.c.FieldAccesses(n, name)
+			nonNil := false
+			for _, st := range stores {
+				if !core.IsNilConst(st.Store.Val) {
+					nonNil = true
+				}
+			}
+			if !nonNil {
+				return absint.Nil{}
+			}
+			if f := core.StructOf(n); f != nil {
+				for i := 0; i < f.NumFields(); i++ {
+					if f.Field(i).Name() == name && !f.Field(i).Exported() {
+						return absint.NewTok(obj.ID+"."+name, "hook")
+					}
+				}
+			}
 		}
 	}
 	// a map field the table says nothing about, of a type whose every allocation site makes that map (or copies it
@@ -884,4 +987,99 @@ func pureTextBody(c *core.Ctx, fn *ssa.Function, depth int, onStack map[*ssa.Fun
 		}
 	}
 	return true
+}
+
+// syncKey identifies a WaitGroup / mutex by the place it lives in.
+func syncKey(v absint.Value) string {
+	if fr, ok := v.(*absint.FieldRef); ok {
+		return fmt.Sprintf("%p.%s", fr.Obj, fr.Name) // held by value in a struct field
+	}
+	return fmt.Sprintf("%p", v)
+}
+
+type muState struct {
+	writer  bool
+	readers int
+}
+
+// syncOp: WaitGroup and mutex operations under the scheduler (absint/sched.go) - a counter that Wait waits for, a
+// lock that Lock waits for.
+func (t *tbl) syncOp(ip *absint.Interp, full string, args []absint.Value) absint.Value {
+	if t.wgs == nil {
+		t.wgs, t.mus = map[string]*int64{}, map[string]*muState{}
+	}
+	key := syncKey(args[0])
+	note := func(ev string) {
+		if t.onSync != nil {
+			t.onSync(ev, key)
+		}
+	}
+	switch full {
+	case "(*sync.WaitGroup).Add", "(*sync.WaitGroup).Done":
+		k := absint.Int(-1)
+		if strings.HasSuffix(full, ".Add") {
+			var ok bool
+			if k, ok = args[1].(absint.Int); !ok {
+				panic(&absint.Undecided{Msg: "WaitGroup.Add of a number the model does not know"})
+			}
+		}
+		n := t.wgs[key]
+		if n == nil {
+			n = new(int64)
+			t.wgs[key] = n
+		}
+		*n += int64(k)
+		if k < 0 {
+			note("done")
+		} else {
+			note(fmt.Sprintf("add(%d)", int64(k)))
+		}
+		if *n < 0 {
+			panic(&absint.GoPanic{Msg: "sync: negative WaitGroup counter"})
+		}
+		if *n == 0 {
+			ip.Yield()
+		}
+		return nil
+	case "(*sync.WaitGroup).Wait":
+		ip.Block(func() bool { n := t.wgs[key]; return n == nil || *n == 0 }, "WaitGroup.Wait")
+		note("wait")
+		return nil
+	}
+	m := t.mus[key]
+	if m == nil {
+		m = &muState{}
+		t.mus[key] = m
+	}
+	switch full[strings.LastIndex(full, ".")+1:] {
+	case "Lock":
+		ip.Block(func() bool { return !m.writer && m.readers == 0 }, "Lock of a held mutex")
+		m.writer = true
+		note("lock")
+	case "Unlock":
+		if !m.writer {
+			panic(&absint.GoPanic{Msg: "sync: unlock of unlocked mutex"})
+		}
+		m.writer = false
+		note("unlock")
+		ip.Yield()
+	case "RLock":
+		ip.Block(func() bool { return !m.writer }, "RLock of a write-held mutex")
+		m.readers++
+	case "RUnlock":
+		if m.readers == 0 {
+			panic(&absint.GoPanic{Msg: "sync: RUnlock of unlocked RWMutex"})
+		}
+		m.readers--
+		ip.Yield()
+	case "TryLock":
+		if !m.writer && m.readers == 0 {
+			m.writer = true
+			return absint.Bool(true)
+		}
+		return absint.Bool(false)
+	default:
+		panic(&absint.Undecided{Msg: "unmodelled synchronisation " + full})
+	}
+	return nil
 }
